@@ -178,6 +178,7 @@ def c05_programs(rng, tier) -> List[Item]:
     items += shared_argument_items(rng, sizes(tier, 30, 150))
     items += collections_api_items(rng, sizes(tier, 45, 180))
     items += node_returning_items(rng, sizes(tier, 20, 60))
+    items += mapping_order_items(rng, sizes(tier, 12, 36))
     items += interface_items(rng, sizes(tier, 12, 60))
     items += dataset_class_items(rng, sizes(tier, 30, 150))
     return items
@@ -451,6 +452,13 @@ def small_tree_enumeration(level: int) -> List[Item]:
 def c05_oracle(prog, meta, impl, model):
     """the model is the eager reference computation: values must coincide, failures must coincide"""
     out = []
+    for i, j in meta.get("pairs", []):
+        # (programs outside the model: the eager computation is the same graph with nothing stored)
+        if i < len(impl) and j < len(impl) and not same_value_or_both_fail(impl[i], impl[j]):
+            out.append(("evaluation yields a different value than the eager computation (the same graph evaluated with nothing stored)", i,
+                        {"options": prog["ops"][i]["o"], "got": impl[i].get("r"), "eager": impl[j].get("r")}))
+    if meta.get("no_model"):
+        return out
     if not isinstance(model, list):
         return out
     for i, (op, a, b) in enumerate(zip(prog["ops"], impl, model)):
@@ -592,7 +600,9 @@ def cached_namespace_items(rng, n) -> List[Item]:
         else:
             dflt = P.dataset([("b", P.option("BASE"))], cache=P.new_cache("nocache"))
         members = [("A", P.option("NS.A", dflt=dflt, nsmember=1, style="option")),
-                   ("C", P.option("NS.C", dflt=P.value(0), nsmember=1, style="option"))]
+                   ("C", P.option("NS.C", dflt=P.value(0), nsmember=1, style="option")),
+                   # (an `Option.auto(...)` member: a placeholder until the namespace names it)
+                   ("D", P.option("NS.D", dflt=P.value(3), nsmember=1, style="auto"))]
         if rng.random() < 0.4:
             sub = P.namespace("NS.SUB", [("D", P.option("NS.SUB.D", dflt=P.option("DEEP", dflt=P.value(1)), nsmember=1, style="option"))],
                               via="decorator")
@@ -602,7 +612,7 @@ def cached_namespace_items(rng, n) -> List[Item]:
         ns = P.namespace("NS", members, via="decorator")
         root = [lambda: P.cached(ns), lambda: P.dataset([("ns", ns)]), lambda: P.cached(P.collection("list", [ns, P.option("Z", dflt=P.value(0))]))][i % 3]()
         seq = [{"BASE": 1}, {"BASE": 2}, {"NS": {"A": 5}, "BASE": 1}, {"NS": {"C": 1}, "BASE": 3, "DEEP": 2}, {"BASE": 1},
-               {"NS": {"C": 1}, "BASE": 4, "DEEP": 3}, {"NS": {"A": 5}, "BASE": 9}]
+               {"NS": {"C": 1}, "BASE": 4, "DEEP": 3}, {"NS": {"A": 5}, "BASE": 9}, {"NS": {"D": 7}, "BASE": 1}, {"NS": {"D": 8}, "BASE": 1}]
         pairs, ke = [], []
         for o in seq:
             P.op("keys", root, o)
@@ -707,6 +717,30 @@ def equal_but_different_dict_items(rng, n) -> List[Item]:
     return items
 
 
+def mapping_order_items(rng, n) -> List[Item]:
+    """option values that are mappings with the SAME entries in a different order (equal as Python dicts, different when
+    iterated or printed) reaching a cached dataset whose body depends on the order: each evaluation returns the value of
+    its own dictionary.  (Oracle only — cache-off twins: the model's dictionaries carry no order of their own.)"""
+    items = []
+    for i in range(n):
+        P = Prog()
+        src = P.option("S") if i % 2 == 0 else P.option("T.CFG")
+        body = P.apply(src, P.fnvalue("tostr"))
+        root = [lambda: P.dataset([("s", body)]), lambda: P.cached(body),
+                lambda: P.apply(P.map(P.dataset([("s", body)]), [("N", P.value([1, 2]))]), P.fnvalue("py:list"))][(i // 2) % 3]()
+        a = {"alpha": 1, "beta": [2], "gamma": {"x": 1, "y": 2}}
+        b = {"gamma": {"y": 2, "x": 1}, "beta": [2], "alpha": 1}
+        c = {"beta": [2], "alpha": 1, "gamma": {"x": 1, "y": 2}}
+        pairs = []
+        for m in (a, b, a, c, b):
+            o = {"S": m, "Z": 1} if i % 2 == 0 else {"T": {"CFG": m}, "Z": 1}
+            P.raw_op(op="evaluate", n=root, o=copy.deepcopy(o), unsorted=True)
+            P.raw_op(op="evaluate", n=root, o=copy.deepcopy(o), unsorted=True, cache_off=True)
+            pairs.append((len(P.ops) - 2, len(P.ops) - 1))
+        items.append((P.to_json(), {"pairs": pairs, "no_model": True}))
+    return items
+
+
 def c01_programs(rng, tier) -> List[Item]:
     items = corpus_items("C01")
     cfg = Cfg(raising=False)
@@ -717,6 +751,7 @@ def c01_programs(rng, tier) -> List[Item]:
     items += function_slot_items(rng, sizes(tier, 24, 96))
     items += cached_dataset_class_items(rng, sizes(tier, 18, 90))
     items += equal_but_different_dict_items(rng, sizes(tier, 16, 48))
+    items += mapping_order_items(rng, sizes(tier, 12, 36))
     return items
 
 
@@ -2354,6 +2389,7 @@ def c09_programs(rng, tier) -> List[Item]:
     items += param_name_items(rng, sizes(tier, 44, 220))
     items += reused_dict_wrapper_items(rng, sizes(tier, 32, 96))
     items += index_segment_items(rng, sizes(tier, 30, 90))
+    items += sibling_wrapper_items(rng, sizes(tier, 36, 72))
     return items
 
 
@@ -2464,6 +2500,28 @@ def index_segment_items(rng, n) -> List[Item]:
     return items
 
 
+def sibling_wrapper_items(rng, n) -> List[Item]:
+    """ONE node (a template, a templated Option) reached twice within a single operation through SIBLING wrappers that
+    pre-set different templated values (`Iter(WithOptions(t, {'G': '{A}'}), WithOptions(t, {'G': '{B}'}))`): keys() /
+    explain() follow each route with its own effective options — the union of what both substitutions read"""
+    items = []
+    for i in range(n):
+        P = Prog()
+        t = [lambda: P.template("{G}, {:who:}!", [("who", P.option("W", dflt=P.value("w")))]), lambda: P.option("G"),
+             lambda: P.template("<{G}>")][i % 3]()
+        presets = [({"G": "{A}"}, {"G": "{B}"}), ({"G": "{S.X}"}, {"G": "{A}{B}"}), ({"G": "{A}"}, {"G": "plain"}), ({"G": "{B}"}, {"G": "{A}"})][(i // 3) % 4]
+        w1, w2 = P.with_options(t, presets[0], force=True), P.with_options(t, presets[1], force=(i % 2 == 0))
+        root = [lambda: P.collection("list", [w1, w2]), lambda: P.collection("tuple", [w2, t, w1]),
+                lambda: P.dataset([("x", w1), ("y", w2)], cache=P.new_cache("nocache"))][(i // 12) % 3]()
+        meta = {"c09": [], "t": "", "agree_keys": []}
+        for o in [{"A": 1, "B": 2, "S": {"X": 3}, "G": "g"}, {"A": 1, "B": 2, "S": {"X": 3}}, {"A": 1, "G": "{B}"}, {"B": 2}, {}]:
+            for op in ("keys", "explain", "evaluate", "validate"):
+                P.op(op, root, o)
+            meta["agree_keys"].append({"k": len(P.ops) - 4, "x": len(P.ops) - 3, "e": len(P.ops) - 2})
+        items.append((P.to_json(), meta))
+    return items
+
+
 def ref_template_keys(s: str) -> List[str]:
     import re
     return list(dict.fromkeys(re.findall(r"(?<!\\){([^\\]*?)}", s)))
@@ -2540,6 +2598,15 @@ def _ref_param(nodes, nid, o, reads):
 
 def c09_oracle(prog, meta, impl, model):
     out = fresh_pairs_oracle(prog, meta, impl)
+    for c in meta.get("agree_keys", []):
+        # (the reference semantics follows every route with that route's effective options)
+        if not isinstance(model, list):
+            break
+        for which, idx in (("keys", c["k"]), ("explain", c["x"])):
+            a, b = impl[idx], model[idx] if idx < len(model) else None
+            if isinstance(b, dict) and "r" in b and b["r"][0] == "ok" and (not is_ok(a) or dumps(a["r"][1]) != dumps(b["r"][1])):
+                out.append((f"{which}() of a node reached through sibling wrappers is not the union over the routes", idx,
+                            {"options": prog["ops"][idx]["o"], "got": a.get("r"), "reference": b["r"]}))
     for c in meta.get("keyopt", []):
         e, k, x = impl[c["e"]], impl[c["k"]], impl[c["x"]]
         o = prog["ops"][c["e"]]["o"]
@@ -3411,6 +3478,29 @@ def raising_member_items(rng, n) -> List[Item]:
     return items
 
 
+def reentered_context_items(rng, n) -> List[Item]:
+    """ONE context object of the library kept in a constant (`NO_CACHE = labrea.cache.disabled()`) and entered twice,
+    nested, around failing and succeeding evaluations: a failure leaves both blocks as the EvaluationError it is"""
+    items = []
+    for i in range(n):
+        P = Prog()
+        cls = ["ValueError", "KeyError", "CustomError"][i % 3]
+        name = P.free(f"rr{i}", **{"raise": {"cls": cls, "on": [0]}})
+        root = [lambda: P.dataset([("a", P.option("A"))], fn_name=name), lambda: P.apply(P.option("A"), P.fnvalue(name)),
+                lambda: P.cached(P.apply(P.option("A"), P.fnvalue(name)))][(i // 3) % 3]()
+        which = "cache" if i % 2 == 0 else "log"
+        recs, exp = [], []
+        for o, fails in [({"A": 1}, False), ({"A": 0}, True), ({}, False), ({"A": 0, "Z": 1}, True), ({"A": 2}, False)]:
+            P.evaluate(root, o, reenter=which, **({"cache_off": True} if which == "cache" else {"log_off": True}))
+            P.evaluate(root, o, cache_off=True)
+            recs.append((len(P.ops) - 2, len(P.ops) - 1))
+            if fails:
+                exp.append(len(P.ops) - 2)
+        items.append((P.to_json(), {"fail": recs, "root": root, "root_cid": None, "raising": {name: cls},
+                                    "expect_cause": {"ops": exp, "cls": cls, "position": "inside a re-entered library context"}}))
+    return items
+
+
 def c12_programs(rng, tier) -> List[Item]:
     items = corpus_items("C12")
     items += c12_domain_items(rng, sizes(tier, 40, 300))
@@ -3422,6 +3512,7 @@ def c12_programs(rng, tier) -> List[Item]:
     items += exception_class_items(rng, len(_pylib.EXC) * len(EXC_POSITIONS))     # the full cross product, in both tiers
     items += custom_node_items(rng, sizes(tier, 60, 240))
     items += raising_member_items(rng, sizes(tier, 36, 72))
+    items += reentered_context_items(rng, sizes(tier, 18, 54))
     return items
 
 
